@@ -213,12 +213,27 @@ def derive(job):
                 out.append({"kind": "D", "object": name, "after": after, "problem": "object %s behaves differently after %s" % (name, after)})
                 recorded[name] = now
     try:
+        # absolute expectations on the shipped objects, asked in the order that exposes state shared
+        # between a checker and the checkers derived from it (derived first)
+        from jsonschema.exceptions import UndefinedTypeCheck
+        for tc_name, tname, want in (("draft4_type_checker", "any", "raise"), ("draft3_type_checker", "any", True),
+                                     ("draft6_type_checker", "integer", True), ("draft4_type_checker", "integer", False),
+                                     ("draft3_type_checker", "integer", False), ("draft7_type_checker", "any", "raise")):
+            tried += 1
+            try:
+                got = getattr(_types, tc_name).is_type(1.0 if tname == "integer" else 1, tname)
+            except UndefinedTypeCheck:
+                got = "raise"
+            if got != want:
+                out.append({"kind": "D", "object": tc_name, "after": "asking a derived checker first", "problem": "%s.is_type(.., %r) -> %r, expected %r" % (tc_name, tname, got, want)})
         for d, c in classes.items():
             add("Draft%d" % d, probe_class(c))
         for nm in ("draft3_type_checker", "draft4_type_checker", "draft6_type_checker"):
             add(nm, probe_checker(getattr(_types, nm)))
         fc0 = jsonschema.FormatChecker()
         add("FormatChecker()#0", probe_format(fc0))
+        fc_plain = jsonschema.FormatChecker()         # never registered on: must still own a copy of the registry
+        add("FormatChecker()#plain", probe_format(fc_plain))
         add("draft7_format_checker", probe_format(_format.draft7_format_checker))
         v_inst = classes[7]({"type": "integer"})
         add("validator-instance", lambda: [v_inst.is_valid(1), v_inst.is_valid(1.5), v_inst.is_type(1, "integer")])
